@@ -12,6 +12,9 @@ import CookModel.Driver.Builder
 import CookModel.Driver.Tie
 import CookModel.Driver.Display
 import CookModel.Driver.Report
+import CookModel.Driver.ScaleM
+import CookModel.Driver.SerdeEq
+import CookModel.Driver.GroupMore
 /- Registry of line-protocol handlers. One line per area. -/
 namespace Cook.Driver
 def handlers : List (List String → Option String) := [
@@ -28,6 +31,9 @@ def handlers : List (List String → Option String) := [
   handleBuilder,
   handleTie,
   handleDisplay,
-  handleReport
+  handleReport,
+  handleScaleM,
+  handleSerdeEq,
+  handleGroupMore
 ]
 end Cook.Driver
